@@ -5,7 +5,7 @@ Method._fields_mapping, MessageType.get_field, Field.name;
 templates  %service/_client_macros.j2 (client_method, "flattened_params" block — the SYNC client)
 and        %service/async_client.py.j2 (the same block, written differently — the ASYNC client)).
 
-The model FOLLOWS THE CODE.  Three layers:
+The model FOLLOWS THE CODE.  Four layers:
 
 1. schema side  — `getField`, `yielded`, `fieldsMapping`: signature strings → ordered (key → field)
    mapping with reserved-name suffixing of every segment (since `fix:` a0434d5; before it only the
@@ -15,18 +15,29 @@ The model FOLLOWS THE CODE.  Three layers:
 3. call side    — `applySync` / `applyAsync` (two textually different application schemes, each with
    its same-package / cross-package branch) and `call` (mutual-exclusion check first).
 
+0. packages      — `Naming`, `isProtoPlusType` (`Address.is_proto_plus_type`: STRING prefix of the API's proto package, or
+   listed in the option `proto-plus-deps`), `crossPkgOf` (`method.input.ident.package != method.ident.package`): the two
+   booleans every branch of the templates hangs on are DERIVED from the package of the file declaring the service and of
+   the file declaring each message (`mappingOf`, `callOf`), so every layout — service and/or requests in the API's root
+   package, in a sub-package, in a nested sub-package, in sibling sub-packages, in a dependency package — is one point of
+   the same model (second deepening round).
+
 NOT modelled (stated so that nobody reads more into the theorems than is there):
 * python-level typing of argument values and proto-plus marshalling of well-known types (Timestamp ↔
   datetime, Duration ↔ timedelta, wrappers ↔ scalars, Struct/Value/ListValue ↔ native values): values are
-  opaque; the harness passes literal Python values of every such kind through both clients (T3);
-* a signature path that goes INTO a marshalled well-known type (`ttl.seconds`): fails in both clients,
-  not generated; paths into unmarshalled raw messages (FieldMask, Status, Policy, Operation) ARE
-  modelled (`rawAssignFails`);
-* oneof clearing (two members of one oneof given together), `Method.flattened_oneof_fields`,
-  `legacy_flattened_fields`, `flattened_field_to_key` (used by samples / unit-test templates only);
-* the ads templates' copy of the block (`gapic/ads-templates/…/client.py.j2`) and the REST transport
-  (it shares the sync macro; only gRPC sessions are run);
-* docstrings rendered from the mapping.
+  opaque; the harness passes literal Python values of every such kind through both clients (T3).
+  What IS modelled since the second deepening round: a signature path that goes INTO such a marshalled type
+  (`ttl.seconds`, `wrapped.value`, `meta.fields`, `lv.values`): `request.ttl` is a python value (or None), not a
+  message — the statement executed for the key raises AttributeError in every client that executes it
+  (`Slot.marshalOwner`, `marshalFails`); paths into unmarshalled raw messages (FieldMask, Status, Policy,
+  Operation) are modelled by `rawAssignFails`;
+* oneof clearing (two members of one oneof given together: both clients assign in declared order, the last one
+  wins; the model's messages have no oneof groups), `Method.flattened_oneof_fields`,
+  `legacy_flattened_fields`, `flattened_field_to_key` (used by the fix-up script / the emitted unit tests only);
+* the ads templates' copy of the block (`gapic/ads-templates/…/client.py.j2`, it differs in `elif not request:`) and
+  the REST transport (it shares the sync macro; only gRPC sessions are run);
+* which files of a request are rendered at all (`%sub` view of `API.subpackages`; C01/C02/C17), docstrings rendered
+  from the mapping.
 
 Request values are wire-level trees: a message is a chain `mcons number value rest` kept in
 ascending field-number order by `ins`; repeated and map fields hold opaque items (the application
@@ -325,15 +336,36 @@ structure Slot where
   ctor : Option Nat     -- number of the TOP-LEVEL request field called `field.name`, if any (constructor keyword; raw or proto-plus request class)
   rawOwner : Bool       -- the message that OWNS the terminal field is a raw protobuf class (not proto-plus)
   isMsg : Bool          -- singular message-typed field
+  marshalOwner : Bool   -- the terminal field belongs to a well-known type that proto-plus hands out as a python value
+                        -- (the attribute before it is read off a proto-plus message): `request.ttl.seconds`
 deriving Repr, DecidableEq
 
 def Field.isSingularMessage (f : Field) : Bool :=
   !f.repeated && (match f.kind with | .message _ => true | _ => false)
 
+/-- the well-known types proto-plus' default marshal converts on attribute access (`proto.marshal.Marshal`:
+Timestamp → datetime, Duration → timedelta, wrappers → the scalar or None, Struct / Value / ListValue → native
+python values); FieldMask, Any, Empty and every other raw message are handed out as they are.  A table of the
+RUNTIME library, not of /repo: tied by T3 only. -/
+def marshalledWkt : List String :=
+  ["google.protobuf.Timestamp", "google.protobuf.Duration", "google.protobuf.Struct", "google.protobuf.Value",
+   "google.protobuf.ListValue", "google.protobuf.DoubleValue", "google.protobuf.FloatValue",
+   "google.protobuf.Int64Value", "google.protobuf.UInt64Value", "google.protobuf.Int32Value",
+   "google.protobuf.UInt32Value", "google.protobuf.BoolValue", "google.protobuf.StringValue",
+   "google.protobuf.BytesValue"]
+
+/-- the terminal field is reached THROUGH a marshalled value: its owner is one of `marshalledWkt` and the field
+holding that owner sits in a proto-plus message (a raw parent hands out the raw Duration, which can be assigned to) -/
+def Entry.marshalOwner (e : Entry) : Bool :=
+  marshalledWkt.contains e.last.owner &&
+  (match e.pre.getLast? with
+   | some l => l.ownerPP
+   | none => false)
+
 def Entry.slot (input : MsgDef) (e : Entry) : Slot :=
   ⟨e.path, e.field.repeated, e.field.isMap, e.field.isValue,
    (input.lookup e.param).map (·.number),      -- the constructor keyword is looked up like an attribute: `Field.name` of the request class
-   !e.last.ownerPP, e.field.isSingularMessage⟩
+   !e.last.ownerPP, e.field.isSingularMessage, e.marshalOwner⟩
 
 /-- a flattened key with the argument the caller passed (`none` = left at its default `None`) -/
 abbrev Bound := Slot × Option Val
@@ -449,11 +481,24 @@ message field (`request.op.error = error`), in both clients alike. -/
 def rawAssignFails (_asy : Bool) (b : Bound) : Bool :=
   given b.2 && b.1.rawOwner && !b.1.repeated && b.1.isMsg
 
+/-- A key whose terminal field lies INSIDE a marshalled well-known type (`ttl.seconds`, `wrapped.value`,
+`meta.fields`, `lv.values`): `request.ttl` is a `timedelta` (read-only attributes) or `None` — the statement
+`request.ttl.seconds = seconds` / `request.lv.values.extend(values)` raises AttributeError whenever it is
+executed: for a singular key when the argument is given, for a repeated/map key (owner never proto-plus: always
+the `if x:` pass) when it is non-empty. -/
+def marshalFails (b : Bound) : Bool :=
+  b.1.marshalOwner && (if b.1.repeated then truthy b.2 else given b.2)
+
+/-- the clients that execute `request.<key> …` statements: both for a same-package request, only the sync
+client otherwise (the asyncio client calls the constructor) -/
+def appliesByAttr (samePkg asy : Bool) : Bool := samePkg || !asy
+
 /-- The emitted method up to (not including) the transport call: the request it would send.
 `asy` selects the asyncio client. -/
 def call (samePkg asy : Bool) (req : ReqArg) (bs : List Bound) : Except CallErr Val :=
   if req.isGiven && hasFlattened bs then .error .valueError
   else if samePkg && bs.any (rawAssignFails asy) then .error .attributeError
+  else if appliesByAttr samePkg asy && bs.any marshalFails then .error .attributeError
   else
     match samePkg, asy, req with
     -- same package, sync: `if not isinstance(request, T): request = T(request); <apply>`
@@ -475,5 +520,41 @@ def sent (samePkg asy : Bool) (req : ReqArg) (bs : List Bound) : List Val :=
   match call samePkg asy req bs with
   | .ok r => [r]
   | .error _ => []
+
+/-! ## 0. Packages: the two booleans of the templates, derived -/
+
+/-- `api.naming`: the proto package of the API being generated and the option `proto-plus-deps` -/
+structure Naming where
+  protoPackage : String
+  protoPlusDeps : List String
+deriving Repr, DecidableEq
+
+/-- `Address.is_proto_plus_type`: `self.proto_package.startswith(self.api_naming.proto_package) or
+self.proto_package in self.api_naming.proto_plus_deps` — a STRING prefix (`acme.lib.v1beta` "starts with"
+`acme.lib.v1`), packages written dotted as in the descriptor. -/
+def isProtoPlusType (n : Naming) (pkg : String) : Bool :=
+  n.protoPackage.toList.isPrefixOf pkg.toList || n.protoPlusDeps.contains pkg
+
+/-- `method.input.ident.package != method.ident.package` (`Address.package` is the tuple of the dotted package
+of the declaring file: two tuples differ iff the dotted strings differ) -/
+def crossPkgOf (inputPkg svcPkg : String) : Bool := inputPkg != svcPkg
+
+/-- a message with the package of the file declaring it -/
+structure PMsg where
+  pkg : String
+  full : String
+  fields : List Field
+deriving Repr, DecidableEq
+
+def PMsg.toMsgDef (n : Naming) (m : PMsg) : MsgDef := ⟨m.full, isProtoPlusType n m.pkg, m.fields⟩
+
+/-- `Method.flattened_fields` of a method of a service declared in package `svcPkg` -/
+def mappingOf (n : Naming) (svcPkg : String) (sch : List PMsg) (input : PMsg) (sigs : List String) :
+    Except GenErr (List Entry) :=
+  fieldsMapping (sch.map (PMsg.toMsgDef n)) (crossPkgOf input.pkg svcPkg) (input.toMsgDef n) sigs
+
+/-- the emitted method of a service declared in `svcPkg` whose request type is declared in `inputPkg` -/
+def callOf (svcPkg inputPkg : String) (asy : Bool) (req : ReqArg) (bs : List Bound) : Except CallErr Val :=
+  call (!crossPkgOf inputPkg svcPkg) asy req bs
 
 end GapicModel.Model.Flatten
